@@ -5,6 +5,7 @@ package c10
 import (
 	"fmt"
 	"math"
+	"runtime"
 
 	"github.com/EliCDavis/polyform/modeling"
 	"github.com/EliCDavis/vector/vector2"
@@ -85,6 +86,11 @@ func (Scans) Run(c choice.Chooser, opt sim.Options) sim.Result {
 		pool = 1 + c.Intn("pool", 50)
 	default:
 		pool = []int{2, 3, 4, 64}[c.Intn("pool", 4)]
+	}
+	// the *Parallel wrappers (pool = number of CPUs) are entry points too
+	wrapper := c.Intn("wrapper", 5) == 4
+	if wrapper {
+		pool = runtime.NumCPU()
 	}
 	n := drawCount(c, pool)
 	if n < 1 {
@@ -188,28 +194,59 @@ func (Scans) Run(c choice.Chooser, opt sim.Options) sim.Result {
 		var r modeling.Mesh
 		switch kind {
 		case kPrimTri, kPrimPoint, kPrimLine:
-			r = m.ScanPrimitivesParallelWithPoolSize(pool, func(i int, p modeling.Primitive) { visit(i, fpPrim(p)) })
+			if wrapper {
+				r = m.ScanPrimitivesParallel(func(i int, p modeling.Primitive) { visit(i, fpPrim(p)) })
+			} else {
+				r = m.ScanPrimitivesParallelWithPoolSize(pool, func(i int, p modeling.Primitive) { visit(i, fpPrim(p)) })
+			}
 		case kScan1:
-			r = m.ScanFloat1AttributeParallelWithPoolSize("f1", pool, func(i int, v float64) { visit(i, fmt.Sprint(math.Float64bits(v))) })
+			if wrapper {
+				r = m.ScanFloat1AttributeParallel("f1", func(i int, v float64) { visit(i, fmt.Sprint(math.Float64bits(v))) })
+			} else {
+				r = m.ScanFloat1AttributeParallelWithPoolSize("f1", pool, func(i int, v float64) { visit(i, fmt.Sprint(math.Float64bits(v))) })
+			}
 		case kScan2:
-			r = m.ScanFloat2AttributeParallelWithPoolSize("f2", pool, func(i int, v vector2.Float64) { visit(i, fmt.Sprint(v)) })
+			if wrapper {
+				r = m.ScanFloat2AttributeParallel("f2", func(i int, v vector2.Float64) { visit(i, fmt.Sprint(v)) })
+			} else {
+				r = m.ScanFloat2AttributeParallelWithPoolSize("f2", pool, func(i int, v vector2.Float64) { visit(i, fmt.Sprint(v)) })
+			}
 		case kScan3:
-			r = m.ScanFloat3AttributeParallelWithPoolSize(modeling.PositionAttribute, pool, func(i int, v vector3.Float64) { visit(i, fmt.Sprint(v)) })
+			if wrapper {
+				r = m.ScanFloat3AttributeParallel(modeling.PositionAttribute, func(i int, v vector3.Float64) { visit(i, fmt.Sprint(v)) })
+			} else {
+				r = m.ScanFloat3AttributeParallelWithPoolSize(modeling.PositionAttribute, pool, func(i int, v vector3.Float64) { visit(i, fmt.Sprint(v)) })
+			}
 		case kMod1:
-			r = m.ModifyFloat1AttributeParallelWithPoolSize("f1", pool, func(i int, v float64) float64 {
+			f := func(i int, v float64) float64 {
 				visit(i, fmt.Sprint(math.Float64bits(v)))
 				return v*2 + float64(i)
-			})
+			}
+			if wrapper {
+				r = m.ModifyFloat1AttributeParallel("f1", f)
+			} else {
+				r = m.ModifyFloat1AttributeParallelWithPoolSize("f1", pool, f)
+			}
 		case kMod2:
-			r = m.ModifyFloat2AttributeParallelWithPoolSize("f2", pool, func(i int, v vector2.Float64) vector2.Float64 {
+			f := func(i int, v vector2.Float64) vector2.Float64 {
 				visit(i, fmt.Sprint(v))
 				return v.Scale(2).Add(vector2.New(float64(i), 1))
-			})
+			}
+			if wrapper {
+				r = m.ModifyFloat2AttributeParallel("f2", f)
+			} else {
+				r = m.ModifyFloat2AttributeParallelWithPoolSize("f2", pool, f)
+			}
 		case kMod3:
-			r = m.ModifyFloat3AttributeParallelWithPoolSize(modeling.PositionAttribute, pool, func(i int, v vector3.Float64) vector3.Float64 {
+			f := func(i int, v vector3.Float64) vector3.Float64 {
 				visit(i, fmt.Sprint(v))
 				return v.Scale(2).Add(vector3.New(float64(i), 1, 2))
-			})
+			}
+			if wrapper {
+				r = m.ModifyFloat3AttributeParallel(modeling.PositionAttribute, f)
+			} else {
+				r = m.ModifyFloat3AttributeParallelWithPoolSize(modeling.PositionAttribute, pool, f)
+			}
 		}
 		detsched.Yield("caller:returned", 0)
 		retMesh = meshsnap.Take(r)
@@ -219,6 +256,10 @@ func (Scans) Run(c choice.Chooser, opt sim.Options) sim.Result {
 	})
 	out := s.Run()
 	desc := fmt.Sprintf("%s pool=%d n=%d", kindNames[kind], pool, n)
+	if wrapper {
+		desc = fmt.Sprintf("%s (wrapper, pool=NumCPU=%d) n=%d", kindNames[kind], pool, n)
+		res.Count("probe:numcpu-wrapper", 1)
+	}
 	detail := func() map[string]any {
 		return map[string]any{"call": desc, "policy": out.PolicyName, "schedule": schedule(out), "visits": visits}
 	}
